@@ -6,7 +6,7 @@ with the dataclasses the reader instantiates and with the shipped XSD.
 """
 import ast
 
-from ..core import AnalysisError, Finding, attr_chain, call_name, norm, walk_no_nested
+from ..core import canon, AnalysisError, Finding, attr_chain, call_name, norm, walk_no_nested
 from ..schema import XSD
 
 SO = "commonroad/common/solution.py"
@@ -111,12 +111,29 @@ def run(repo, res, tier):
     tags = [n for n in walk_no_nested(crn) if isinstance(n, ast.Call) and norm(n.func).endswith("Element") and n.args and isinstance(n.args[0], ast.Constant)]
     res.check("TAB-XSD", "root element is <CommonRoadSolution>", len(tags) == 1 and tags[0].args[0].value == "CommonRoadSolution", mod, crn, "solution root tag", "the document root is not the schema's root element", qualname="CommonRoadSolutionWriter._create_root_node")
 
-    # ---------------------------------------------------------------- class table
+    # ---------------------------------------------------------------- class table (a dict literal StateType.X -> class;
+    # it may be a local of _parse_state, a class-level or a module-level constant)
+    from ..dataflow import ReachingDefs
+    from ..flowtools import result_cases
+
     ps = rdr.methods["_parse_state"]
+    prd = ReachingDefs(ps)
+    rets = [n for n in walk_no_nested(ps) if isinstance(n, ast.Return) and n.value is not None]
     table = None
-    for n in walk_no_nested(ps):
-        if isinstance(n, ast.Assign) and isinstance(n.value, ast.Dict) and all(norm(k).startswith("StateType.") for k in n.value.keys):
-            table = {norm(k).split(".")[1]: norm(v) for k, v in zip(n.value.keys, n.value.values)}
+    tparam = ps.args.args[1].arg
+    ret_ok = False
+    if len(rets) == 1 and isinstance(rets[0].value, ast.Call) and isinstance(rets[0].value.func, ast.Subscript):
+        call = rets[0].value
+        tv = call.func.value
+        cand = None
+        if isinstance(tv, ast.Name):
+            ds = [d.node for d in prd.defs(tv.id, rets[0]) if d.node is not None]
+            cand = ds[0] if len(ds) == 1 else mod.assigns.get(tv.id)
+        elif isinstance(tv, ast.Attribute) and isinstance(tv.value, ast.Name) and tv.value.id in ("cls", "self", rdr.name):
+            cand = rdr.class_assigns.get(tv.attr)
+        if isinstance(cand, ast.Dict) and all(norm(k).startswith("StateType.") for k in cand.keys):
+            table = {norm(k).split(".")[1]: norm(v) for k, v in zip(cand.keys, cand.values)}
+        ret_ok = norm(call.func.slice) == tparam and not call.args and len(call.keywords) == 1 and call.keywords[0].arg is None
     if table is None:
         raise AnalysisError("_parse_state: state class table not found")
     for k in sorted(keys):
@@ -128,38 +145,93 @@ def run(repo, res, tier):
             fields = set(repo.dataclass_fields(c))
             missing = [f for f in sf[k] if f not in fields]
             res.check("TAB-CLASS", "%s has all fields of StateFields.%s" % (c.name, k), not missing, mod, ps, "%s lacks %s" % (c.name, missing), "the reader passes a keyword the state class does not accept (TypeError)", qualname="CommonRoadSolutionReader._parse_state")
-    rets = [n for n in walk_no_nested(ps) if isinstance(n, ast.Return)]
-    res.check("TAB-CLASS", "_parse_state instantiates table[state_type](**values)", len(rets) == 1 and norm(rets[0].value) == "state_types[state_type](**state_vals)", mod, ps, "_parse_state return", "the parsed values are not passed to the class selected by the state type", qualname="CommonRoadSolutionReader._parse_state")
-    # reader and writer walk the same zipped tables
+    res.check("TAB-CLASS", "_parse_state instantiates table[state_type](**values)", ret_ok, mod, ps, "_parse_state return", "the parsed values are not passed to the class selected by the state type", qualname="CommonRoadSolutionReader._parse_state")
+    # reader and writer walk the same zipped tables (loop or comprehension, with or without list(..))
     zips = []
     for cls_, fn in ((rdr, "_parse_state"), (wr, "_create_state_node")):
         f = cls_.methods[fn]
-        z = [norm(n.iter) for n in walk_no_nested(f) if isinstance(n, ast.For) and "zip(" in norm(n.iter)]
+        frd = ReachingDefs(f)
+        its = [n.iter for n in ast.walk(f) if isinstance(n, ast.For)] + [g.iter for n in ast.walk(f) if isinstance(n, (ast.ListComp, ast.GeneratorExp, ast.DictComp, ast.SetComp)) for g in n.generators]
+        z = []
+        for it in its:
+            while isinstance(it, ast.Call) and norm(it.func) in ("list", "tuple") and len(it.args) == 1:
+                it = it.args[0]
+            t = canon(it, frd, frd.stmt_of(it), [a.arg for a in f.args.args])
+            if t.startswith("zip("):
+                z.append(t)
         zips.append(z)
-    res.check("TAB-CLASS", "writer and reader iterate zip(xml_fields, fields) of the state type", zips[0] == zips[1] == ["list(zip(state_type.xml_fields, state_type.fields))"], mod, ps, "state table iteration %s" % zips, "writer and reader pair xml names and fields differently", qualname="CommonRoadSolutionReader._parse_state")
+    want_zip = ["zip(%s.xml_fields, %s.fields)" % ("state_type", "state_type")]
+    res.check("TAB-CLASS", "writer and reader iterate zip(xml_fields, fields) of the state type", zips[0] == zips[1] == want_zip, mod, ps, "state table iteration %s" % zips, "writer and reader pair xml names and fields differently", qualname="CommonRoadSolutionReader._parse_state")
 
     # ---------------------------------------------------------------- number formatting
     cse = wr.methods["_create_sub_element"]
     texts = [n for n in walk_no_nested(cse) if isinstance(n, ast.Assign) and norm(n.targets[0]).endswith(".text")]
-    ok = len(texts) == 1
-    if ok:
-        v = texts[0].value
-        ok = isinstance(v, ast.Call) and call_name(v) in ("str", "repr") and len(v.args) == 1
-        if ok:
+    vpar = cse.args.args[-1].arg
+    ok = len(texts) >= 1
+    for tx in texts:
+        v = tx.value
+        good = isinstance(v, ast.Call) and call_name(v) in ("str", "repr") and len(v.args) == 1
+        if good:
             inner = v.args[0]
             alts = [inner.body, inner.orelse] if isinstance(inner, ast.IfExp) else [inner]
-            ok = all(norm(a) in ("value", "np.float64(value)", "float(value)") for a in alts)
-    res.check("NUMFMT", "state values are written with the shortest round-trip repr (str of the value / np.float64)", ok, mod, cse, "_create_sub_element text = %s" % (norm(texts[0].value) if texts else "?"), "values are rounded or formatted with limited precision: read-back values are not bit-identical", qualname="CommonRoadSolutionWriter._create_sub_element")
+            good = all(norm(a) in (vpar, "np.float64(%s)" % vpar, "float(%s)" % vpar) for a in alts)
+        ok = ok and good
+    res.check("NUMFMT", "state values are written with the shortest round-trip repr (str of the value / np.float64)", ok, mod, cse, "_create_sub_element text = %s" % ([norm(t.value) for t in texts]), "values are rounded or formatted with limited precision: read-back values are not bit-identical", qualname="CommonRoadSolutionWriter._create_sub_element")
     pse = rdr.methods["_parse_sub_element"]
-    t = " ; ".join(norm(s) for s in pse.body)
-    ok = "float(elem.text) if as_float else int(elem.text)" in t
+    serd = ReachingDefs(pse)
+    cases = result_cases(mod, pse, serd, [a.arg for a in pse.args.args])
+    ok = bool(cases)
+    kinds = set()
+
+    def conv_of(e):
+        """'float' / 'int' if e is float(<x>.text) / int(<x>.text)"""
+        if isinstance(e, ast.Call) and norm(e.func) in ("float", "int", "np.float64") and len(e.args) == 1 and isinstance(e.args[0], ast.Attribute) and e.args[0].attr == "text":
+            return "float" if norm(e.func) != "int" else "int"
+        return None
+
+    for c_ in cases:
+        txt = c_.text(serd, [a.arg for a in pse.args.args])
+        try:
+            e = ast.parse(txt, mode="eval").body
+        except SyntaxError:
+            ok = False
+            continue
+        gl = [(t, p) for t, p, _n in c_.guards]
+        if isinstance(e, ast.IfExp) and norm(e.test) == "as_float" and conv_of(e.body) == "float" and conv_of(e.orelse) == "int":
+            kinds |= {"float", "int"}
+        elif isinstance(e, ast.IfExp) and norm(e.test) == "not as_float" and conv_of(e.body) == "int" and conv_of(e.orelse) == "float":
+            kinds |= {"float", "int"}
+        elif conv_of(e) == "float" and ("as_float", True) in gl:
+            kinds.add("float")
+        elif conv_of(e) == "int" and ("as_float", True) not in gl:
+            kinds.add("int")
+        elif conv_of(e) == "float" and ("as_float", False) not in gl and ("as_float", True) not in gl and any(conv_of(ast.parse(o.text(serd, [a.arg for a in pse.args.args]), mode="eval").body) == "int" and ("as_float", False) in [(t, p) for t, p, _n in o.guards] for o in cases):
+            kinds.add("float")
+        else:
+            ok = False
+    ok = ok and kinds == {"float", "int"}
     res.check("NUMFMT", "reader parses with float() / int()", ok, mod, pse, "_parse_sub_element", "element text is not parsed with the exact inverse of the writer's formatting", qualname="CommonRoadSolutionReader._parse_sub_element")
-    tps = " ; ".join(norm(s) for s in ps.body)
-    ok = "as_float=not xml_name == 'time'" in tps or "as_float=xml_name != 'time'" in tps
+    ok = False
+    for c_ in ast.walk(ps):
+        if isinstance(c_, ast.Call) and norm(c_.func).endswith("_parse_sub_element"):
+            for kw in c_.keywords:
+                if kw.arg == "as_float" and len(c_.args) >= 2:
+                    nm = canon(c_.args[1], prd, prd.stmt_of(c_), [a.arg for a in ps.args.args])
+                    ok = canon(kw.value, prd, prd.stmt_of(c_), [a.arg for a in ps.args.args]) in ("%s != 'time'" % nm, "'time' != %s" % nm)
     res.check("NUMFMT", "only 'time' is parsed as int", ok, mod, ps, "_parse_state as_float", "a float field is truncated to int (or time parsed as float)", qualname="CommonRoadSolutionReader._parse_state")
     pt = rdr.methods["_parse_trajectory"]
     tt = " ; ".join(norm(s) for s in pt.body)
-    ok = "sorted(state_list, key=lambda state: state.time_step)" in tt and "initial_time_step=state_list[0].time_step" in tt
+    # the parsed states are put into ascending time order before the trajectory is built
+    sort_ok = False
+    for c_ in ast.walk(pt):
+        if isinstance(c_, ast.Call):
+            keys_ = [kw.value for kw in c_.keywords if kw.arg == "key"]
+            is_sort = (norm(c_.func) == "sorted" and c_.args) or (isinstance(c_.func, ast.Attribute) and c_.func.attr == "sort")
+            if is_sort and len(keys_) == 1 and not any(kw.arg == "reverse" for kw in c_.keywords):
+                kt = norm(keys_[0])
+                if kt in ("attrgetter('time_step')", "operator.attrgetter('time_step')") or (isinstance(keys_[0], ast.Lambda) and norm(keys_[0].body) == "%s.time_step" % keys_[0].args.args[0].arg):
+                    sort_ok = True
+    ok = sort_ok and "initial_time_step=state_list[0].time_step" in tt
     res.check("NUMFMT", "states sorted by time step; trajectory starts at the first", ok, mod, pt, "_parse_trajectory ordering", "time steps are not returned in ascending order", qualname="CommonRoadSolutionReader._parse_trajectory")
     ok = "int(trajectory_node.get('planningProblem'))" in tt
     ctn = wr.methods["_create_trajectory_node"]
